@@ -19,7 +19,7 @@ from ..drivers import mirror_drv as drv
 
 ACTIONS = ["NDeliver", "NSkip", "NVanish", "NCrash", "Restart", "EndHandler", "MkDirs", "Cmp", "RmTmp", "CopyBegin", "CopyEnd",
            "Link", "MvRename", "Unlink", "Rename", "RmDirSrc", "RbRemove"]
-QUICK_WITNESSES = ["NoCrashBetweenCopyAndRename", "NoHalfCopyAfterCrash", "NoStaleEvent", "NeverTwoCopies", "NoExpiry",
+QUICK_WITNESSES = ["NoCrashBetweenCopyAndRename", "NoHalfCopyAfterCrash", "NoStaleEvent", "NoStaleEventOfNewest", "NeverTwoCopies", "NoExpiry",
                    "NoRepeatedEvent", "NoExpiryOnOlderEvent", "NoRecopyOverHalf"]
 MORE_WITNESSES = ["NoStuckTmp", "NeverQuiescentAfterCrash"]
 
@@ -84,6 +84,15 @@ def derive_history(rec, rng, method):
         ev.insert(rng.randint(pos + 1, len(ev)), ("ev", "created", fid))
         if rng.random() < 0.7:
             ev.insert(rng.randint(pos + 1, len(ev)), ("ev", "deleted", fid))
+    # the newest metadata file of a channel is removed by something else: its deletion is reported in order, stale
+    # created / modified events of it arrive later (the newest file that is still there has to stay)
+    if newest and rng.random() < 0.35:
+        fid = rng.choice(sorted(newest))
+        pos = rng.randint(1, len(ev))
+        ev.insert(pos, ("vanish", fid))
+        ev.insert(pos + 1, ("ev", "deleted", fid))
+        for _ in range(rng.randint(1, 2)):
+            ev.insert(rng.randint(pos + 2, len(ev)), ("ev", rng.choice(["created", "modified"]), fid))
     # deletions reported for files the mirror itself moved away / expired
     for _ in range(rng.randint(0, 3)):
         ev.insert(rng.randint(len(ev) // 2, len(ev)), ("ev", "deleted", rng.randint(1, len(rec.files))))
@@ -156,6 +165,10 @@ def history_from_behaviour(beh, rec):
         elif a == "Vanish":
             steps.append(("vanish", fmap[last["f"]][0]))
             changing = 0
+        elif a == "VanishNewest":     # the deletion is reported in order
+            steps.append(("vanish", fmap[last["f"]][0]))
+            steps.append(("ev", "deleted", fmap[last["f"]][0]))
+            changing = 0
         elif a in ("copyb", "copye", "link", "mvrename", "unlink", "rename", "rbremove", "rmtmp"):
             changing += 1
         elif a == "Crash" and crash_rule is None:
@@ -215,14 +228,15 @@ def corrupted_traces(scen, verdicts):
             e["dstT"][e["b"][2] - 1] = 0
             out.append((s, "C17-NoLossMove-data-file-intact-nowhere", "tmp. name after the moving rename set to 'absent'"))
     # 4. the newest metadata file is gone from the source at the end; 5. a selected file is missing in the destination
-    s = pick(lambda s: s["opts"]["method"] == "move" and "md" in s["cfg"]["kind"])
+    novanish = lambda s: not any(e["ev"] == "vanish" for e in s["events"])
+    s = pick(lambda s: s["opts"]["method"] == "move" and "md" in s["cfg"]["kind"] and novanish(s))
     if s:
         c = s["cfg"]
         md = [f for f in range(len(c["kind"])) if c["kind"][f] == "md"]
         newest = max(md, key=lambda f: (c["grp"][f] == c["grp"][md[0]], c["key"][f]))
         s["events"][-1]["src"][newest] = 0
         out.append((s, "C17-NewestMdStays", "newest metadata file set to 'absent' in the source at quiescence"))
-    s = pick(lambda s: all(s["cfg"]["sel"]))
+    s = pick(lambda s: all(s["cfg"]["sel"]) and novanish(s))
     if s:
         s["events"][-1]["dstF"][len(s["cfg"]["kind"]) - 1] = 0
         out.append((s, "C17-Fidelity-selected-file-missing-or-different-in-destination", "a destination file set to 'absent' at quiescence"))
